@@ -14,6 +14,9 @@ package poll
 //@ use-contracts get
 //@ funcvalue ^mesg\.Done$ records done
 //@ requires w != nil && mesg != nil && mesg.Done != nil && w.connections.conns != nil
+// every message is decoded into a description of its own: nothing is carried over from the previous message (a key
+// the message omits must read as absent, not as what the last message said)
+//@ site call Unmarshal assert [C18 C19 C20] caller_data == nil
 //@ ensures calls("done") == 1 && calls("get") <= 1
 //@ ensures callarg("done", 0, 0) ==> calls("get") == 1 && callres("get", 0, 1) && sends(callres("get", 0, 0).ch) == 1
 //@ ensures !callarg("done", 0, 0) && calls("get") == 1 && callres("get", 0, 1) ==> sends(callres("get", 0, 0).ch) == 0
